@@ -1,4 +1,6 @@
 import GSProofs.Lemmas.RespLifeAccMgr
+import GSProofs.C04
+import GSProofs.Lemmas.ReqLifeQueue
 /-!
 # C23 — Reported request state agrees with the work queue when quiescent   (responder side)
 
@@ -269,5 +271,158 @@ theorem drained_hypothesis_satisfiable :
     ReachableDrained {} (run (init {}) lifecycleReuse) ∧ quiescent (run (init {}) lifecycleReuse) = true ∧
       (run (init {}) lifecycleReuse).table ≠ [] ∧ (run (init {}) lifecycleReuse).underflow = false :=
   ⟨reachableDrained_run ReachableDrained.init _ (by decide), by decide, by decide, by decide⟩
+
+end GS.C23
+
+/-! # C23, requestor side — the request manager's reported state agrees with its task queue
+
+Model: `GS.ReqLife` (lean/GS/Model/ReqLifecycle.lean, the C04 model of ONE outgoing request: manager steps of
+`requestmanager/server.go`, the task-queue worker + executor phases, the `WorkerTaskQueue` as the two
+counters `tqPending` / `tqActive`: PushTask in `newRequest` / `unpause`, PopTasks = `wPop`, TaskDone in
+`requestTask` for an untracked request and in `releaseRequestTask`).  The observables are defined from the
+model state in Lemmas/ReqLifeQueue.lean: `reportedState` (= what the correspondence driver prints as
+`ps:…` and the check compares with the real `RequestManager.PeerState`), `taskPending`, `taskActive`
+(= the driver's `p=` / `a=`), `Quiescent`.  All theorems hold for EVERY `Reachable` state (all histories of
+requests, responses, pauses, cancels, failures and all schedules), by the inductive invariant
+`QInv` (Lemmas/ReqLifeQueue.lean) on top of C04's `Inv`.
+
+The property sentence's "queued requests are pending" holds as stated; its converse direction (what
+`PeerState.Diagnostics` also checks: every pending task belongs to a Queued request)
+--   theorem req_agree_naive : Reachable s → Quiescent s → (reportedState s = some .queued ↔ taskPending s)
+is FALSE of the code (`req_agree_stale_counterexample`): `cancelRequest` / a failure status / a response-hook
+error on a Queued request terminates it without touching the task queue, so its task stays pending
+(stale) until a worker pops it and `requestTask` answers with an empty task + TaskDone.  `req_agree` states
+exactly what is true: a pending task belongs to a Queued request or is such a stale task of an ended
+request.  (Not fixed in /repo: removing the task would freeze the peer's other requests, see STATUS.md.) -/
+namespace GS.C23
+open GS.ReqLife
+
+theorem req_reachable_inv {s : GS.ReqLife.State} (h : GS.ReqLife.Reachable s) : Inv s ∧ QInv s :=
+  qinv_reachable GS.C04.repairs_present.1 GS.C04.repairs_present.2 h
+
+/-- **req_agree.**  *"Whenever a node is quiescent, each request's reported state agrees with its work
+    queue (queued requests are pending, running requests are active, paused and completing requests are in
+    neither)"* — requestor side.  In every reachable quiescent state of the request life cycle:
+    * the request is reported Queued iff its task is pending and is not the stale task of an ended request;
+    * it is reported Running iff its task is active;
+    * if it is reported Paused its task is neither pending nor active;
+    * if it is not reported (not yet created, or ended) its task is not active, and a pending task is stale
+      (`staleTask`: the manager has deleted the request, `reg = gone`). -/
+theorem req_agree {s : GS.ReqLife.State} (h : GS.ReqLife.Reachable s) (hq : Quiescent s) :
+    (reportedState s = some .queued ↔ (taskPending s ∧ ¬ staleTask s)) ∧
+    (reportedState s = some .running ↔ taskActive s) ∧
+    (reportedState s = some .paused → ¬ taskPending s ∧ ¬ taskActive s) ∧
+    (reportedState s = none → ¬ taskActive s ∧ (taskPending s → staleTask s)) := by
+  obtain ⟨hi, hqi⟩ := req_reachable_inv h
+  obtain ⟨_, hm, h1, h2, h3⟩ := hq
+  exact agree_of_inv hi hqi hm h1 h2 h3
+
+/-- the form `PeerState.Diagnostics` uses, for a request that IS reported: Queued ↔ pending, Running ↔ active,
+    Paused → neither -/
+theorem req_agree_reported {s : GS.ReqLife.State} (h : GS.ReqLife.Reachable s) (hq : Quiescent s)
+    (hr : reportedState s ≠ none) :
+    (reportedState s = some .queued ↔ taskPending s) ∧
+    (reportedState s = some .running ↔ taskActive s) ∧
+    (reportedState s = some .paused → ¬ taskPending s ∧ ¬ taskActive s) := by
+  obtain ⟨a, b, c, _⟩ := req_agree h hq
+  refine ⟨⟨fun hx => (a.mp hx).1, fun hp => a.mpr ⟨hp, ?_⟩⟩, b, c⟩
+  intro hst
+  apply hr
+  simp [reportedState, hst.1]
+
+/-- in every reachable state (quiescent or not) the request has at most one pending and one active task -/
+theorem req_queue_bounds {s : GS.ReqLife.State} (h : GS.ReqLife.Reachable s) : s.tqPending ≤ 1 ∧ s.tqActive ≤ 1 :=
+  queue_bounds_of_inv (req_reachable_inv h).2
+
+/-- cancel while Queued (the worker busy elsewhere), then both collectors run to the end -/
+def staleTrace : List GS.ReqLife.Action :=
+  [.envNew, .mgr, .envCancelApi, .mgr, .ceRecv, .ceSeeClose, .ceDeliver, .ceExit, .cpSeeClose, .cpExit]
+
+/-- the documented exception is real: a reachable quiescent state in which the request has ended (both
+    returned channels closed, nothing reported) and its task is still pending. -/
+theorem req_agree_stale_counterexample :
+    ∃ s, GS.ReqLife.Reachable s ∧ Quiescent s ∧ bothClosed s = true ∧ reportedState s = none ∧ taskPending s ∧
+      staleTask s :=
+  ⟨_, GS.C04.reachable_of_trace (p := 0) (e := 10) (t := 10) (acts := staleTrace) (by decide), by decide, by decide,
+    by decide, by decide, by decide⟩
+
+/-- a request whose two returned channels are closed has been deleted by the manager -/
+theorem ended_of_closed {s : GS.ReqLife.State} (h : GS.ReqLife.Reachable s) (he : bothClosed s = true) :
+    s.reg = .gone := by
+  have hi := (req_reachable_inv h).1
+  apply hi.n2
+  have : s.cp = .done := by simp [bothClosed] at he; exact he.1
+  simp [this, cpNeedsGone]
+
+/-- the caller's view of "ended" (C04.closed_iff_done): each returned channel carries its `close` -/
+theorem closed_iff_observed {s : GS.ReqLife.State} (h : GS.ReqLife.Reachable s) :
+    bothClosed s = true ↔ (closes s.retP = 1 ∧ closes s.retE = 1) := by
+  obtain ⟨a, b⟩ := GS.C04.closed_iff_done h
+  simp [bothClosed, a, b]
+
+/-- **req_final.**  *"once all requests have ended the statistics report no active or pending requests"* —
+    requestor side.  In every reachable quiescent state in which the request has ended (the manager has
+    deleted it; `ended_of_closed`: in particular whenever both returned channels are closed, C04):
+    nothing is reported, the worker is idle, no task is active, at most one task is pending, and
+    * if no stale task remains, no task is pending;
+    * if the stale task remains, a worker can pop it, and after `PopTasks`, `GetRequestTask` and the
+      manager's answer (empty task, TaskDone) the state is quiescent again with nothing pending or active. -/
+theorem req_final {s : GS.ReqLife.State} (h : GS.ReqLife.Reachable s) (hq : Quiescent s) (he : s.reg = .gone) :
+    reportedState s = none ∧ s.w = .idle ∧ ¬ taskActive s ∧ s.tqPending ≤ 1 ∧
+    (¬ staleTask s → ¬ taskPending s) ∧
+    (staleTask s → ∃ s', run s [.wPop, .wGet, .mgr] = some s' ∧ Quiescent s' ∧ reportedState s' = none ∧
+        s'.cp = s.cp ∧ s'.ce = s.ce ∧ ¬ taskPending s' ∧ ¬ taskActive s') := by
+  obtain ⟨hi, hqi⟩ := req_reachable_inv h
+  have hag := req_agree h hq
+  have hb := queue_bounds_of_inv hqi
+  obtain ⟨hmb, hm, h1, h2, h3⟩ := hq
+  have hrep : reportedState s = none := by simp [reportedState, he]
+  have hw : s.w = .idle := by
+    have j := hi.j
+    cases hw : s.w <;> simp_all [execActive]
+  refine ⟨hrep, hw, (hag.2.2.2 hrep).1, hb.1, ?_, ?_⟩
+  · intro hn hp; exact hn ⟨he, hp⟩
+  · intro hst
+    have hp : s.tqPending = 1 := by have := hst.2; omega
+    have ha : s.tqActive = 0 := by
+      have := (hag.2.2.2 hrep).1; simp only [taskActive] at this; omega
+    have hpos : 0 < s.tqPending := hst.2
+    simp [run, step, hw, hpos, hm, pushMsg, hmb, handle, he, Quiescent, reportedState, taskPending, taskActive]
+    omega
+
+/-- the same with "ended" as the caller observes it -/
+theorem req_final_closed {s : GS.ReqLife.State} (h : GS.ReqLife.Reachable s) (hq : Quiescent s)
+    (he : bothClosed s = true) (hn : ¬ staleTask s) :
+    reportedState s = none ∧ ¬ taskPending s ∧ ¬ taskActive s := by
+  obtain ⟨a, _, c, _, d, _⟩ := req_final h hq (ended_of_closed h he)
+  exact ⟨a, d hn, c⟩
+
+/-- once the request has ended nothing pushes a task for it again: along every continuation the request
+    stays unreported and the number of pending tasks does not grow (so "no stale task" is stable, and by
+    `req_agree` nothing is active at any later quiescent point). -/
+theorem req_final_stable {s s' : GS.ReqLife.State} {acts : List GS.ReqLife.Action} (h : GS.ReqLife.Reachable s)
+    (he : s.reg = .gone) (hr : run s acts = some s') :
+    reportedState s' = none ∧ s'.tqPending ≤ s.tqPending := by
+  obtain ⟨g, p⟩ := gone_run h (fun hx => (req_reachable_inv hx).1) he hr
+  exact ⟨by simp [reportedState, g], p⟩
+
+/-! non-vacuity: quiescent reachable states with a Queued / Running / Paused request, the stale task being
+    popped, and a normal completion (tests of the definitions on concrete schedules) -/
+
+def pausedTrace : List GS.ReqLife.Action :=
+  [.envNew, .mgr, .wPop, .wGet, .mgr, .envPause, .mgr, .xTop, .xWaitLocal, .xRead true 0 true, .xHook .ok, .xFin1, .mgr]
+
+example : ((run (init 0 10 10) (pausedTrace.take 2)).map fun s =>
+    (decide (Quiescent s), reportedState s, s.tqPending, s.tqActive)) = some (true, some .queued, 1, 0) := by decide
+example : ((run (init 0 10 10) (pausedTrace.take 5)).map fun s =>
+    (decide (Quiescent s), reportedState s, s.tqPending, s.tqActive)) = some (true, some .running, 0, 1) := by decide
+example : ((run (init 0 10 10) pausedTrace).map fun s =>
+    (decide (Quiescent s), reportedState s, s.tqPending, s.tqActive)) = some (true, some .paused, 0, 0) := by decide
+example : ((run (init 0 10 10) (pausedTrace ++ [.envUnpause, .mgr])).map fun s =>
+    (decide (Quiescent s), reportedState s, s.tqPending, s.tqActive)) = some (true, some .queued, 1, 0) := by decide
+example : ((run (init 0 10 10) (staleTrace ++ [.wPop, .wGet, .mgr])).map fun s =>
+    (decide (Quiescent s), reportedState s, s.tqPending, s.tqActive, bothClosed s)) = some (true, none, 0, 0, true) := by decide
+example : ((run (init 0 10 10) GS.C04.successTrace).map fun s =>
+    (decide (Quiescent s), reportedState s, s.tqPending, s.tqActive, bothClosed s)) = some (true, none, 0, 0, true) := by decide
 
 end GS.C23
